@@ -154,3 +154,42 @@ M("c08-wait-except-continue", "C08", ("_core", "                    break\n     
 M("c08-wait-no-time-bound", "C08", ("_core", "            while timeout is None or time.time() - start_time < timeout:", "            while True:"), ["R-C08-7"])
 M("c08-wait-no-settimeout", "C08", ("_core", "            self.sock.settimeout(timeout)\n            start_time", "            start_time"), ["R-C08-7"])
 M("c08-spec-close-guard-rewritten", "C08", ("_core", "        if status < 0 or status >= ABNF.LENGTH_16:\n            raise ValueError(\"code is invalid range\")\n\n        try:", "        if not 0 <= status <= 0xFFFF:\n            raise ValueError(\"code is invalid range\")\n\n        try:"), expect="silent")
+
+# ------------------------------------------------------------------ C12
+M("c12-lock-inside-loop", "C12", ("_core", "        with self.lock:\n            while data:\n                l = self._send(data)\n                data = data[l:]", "        while data:\n            with self.lock:\n                l = self._send(data)\n            data = data[l:]"), ["R-C12-1"])
+M("c12-send-lock-dropped", "C12", ("_core", "        with self.lock:\n            while data:\n                l = self._send(data)\n                data = data[l:]", "        if True:\n            while data:\n                l = self._send(data)\n                data = data[l:]"), ["R-C12-1"])
+M("c12-wrong-lock", "C12", ("_core", "        with self.lock:\n            while data:", "        with self.readlock:\n            while data:"), ["R-C12-1", "R-C12-5"])
+M("c12-remainder-off-by-one", "C12", ("_core", "                data = data[l:]", "                data = data[l + 1:]"), ["R-C12-2"])
+M("c12-remainder-fixed-1", "C12", ("_core", "                data = data[l:]", "                data = data[1:]"), ["R-C12-2"])
+M("c12-if-instead-of-while", "C12", ("_core", "            while data:\n                l = self._send(data)", "            if data:\n                l = self._send(data)"), ["R-C12-2"])
+M("c12-readlock-dropped", "C12", ("_core", "        with self.readlock:\n            opcode, data = self.recv_data()", "        if True:\n            opcode, data = self.recv_data()"), ["R-C12-3"])
+M("c12-frame-lock-dropped", "C12", ("_abnf", "    def recv_frame(self) -> ABNF:\n        with self.lock:", "    def recv_frame(self) -> ABNF:\n        if True:"), ["R-C12-3"])
+M("c12-frame-lock-split", "C12", ("_abnf", "            # Payload\n            payload = self.recv_strict(length)", "            pass\n        with self.lock:\n            # Payload\n            payload = self.recv_strict(length)"), ["R-C12-3"])
+M("c12-default-multithread-false", "C12", ("_core", "        enable_multithread: bool = True,\n        skip_utf8_validation: bool = False,\n        dispatcher", "        enable_multithread: bool = False,\n        skip_utf8_validation: bool = False,\n        dispatcher"), ["R-C12-4"])
+M("c12-nolock-both-arms", "C12", ("_core", "            self.lock = threading.Lock()\n            self.readlock = threading.Lock()", "            self.lock = NoLock()\n            self.readlock = NoLock()"), ["R-C12-4"])
+M("c12-same-lock-twice", "C12", ("_core", "            self.lock = threading.Lock()\n            self.readlock = threading.Lock()", "            self.lock = threading.Lock()\n            self.readlock = self.lock"), ["R-C12-4"])
+M("c12-create-connection-default-false", "C12", ("_core", 'enable_multithread = options.pop("enable_multithread", True)', 'enable_multithread = options.pop("enable_multithread", False)'), ["R-C12-4"])
+M("c12-app-multithread-false", "C12", ("_app", "                enable_multithread=True,", "                enable_multithread=False,"), ["R-C12-4"])
+M("c12-socket-send-twice", "C12", ("_socket", "        if sock.gettimeout() == 0:\n            return sock.send(data)\n        else:\n            return _send()", "        if sock.gettimeout() == 0:\n            sock.send(data)\n            return sock.send(data)\n        else:\n            return _send()"), ["R-C12-6"])
+M("c12-socket-send-returns-len", "C12", ("_socket", "        if sock.gettimeout() == 0:\n            return sock.send(data)\n        else:", "        if sock.gettimeout() == 0:\n            sock.send(data)\n            return len(data)\n        else:"), ["R-C12-6"])
+M("c12-pong-under-frame-lock-cycle", "C12", ("_core", "        with self.lock:\n            while data:", "        with self.lock, self.readlock:\n            while data:"), ["R-C12-5"])
+M("c12-spec-lock-around-more", "C12", ("_core", "        data = frame.format()\n        length = len(data)\n        if isEnabledForTrace():\n            trace(f\"++Sent raw: {repr(data)}\")\n            trace(f\"++Sent decoded: {frame.__str__()}\")\n        with self.lock:\n            while data:\n                l = self._send(data)\n                data = data[l:]",
+                                    "        with self.lock:\n            data = frame.format()\n            length = len(data)\n            while data:\n                l = self._send(data)\n                data = data[l:]"), expect="silent")
+
+# ------------------------------------------------------------------ C03
+M("c03-clear-before-payload", "C03", ("_abnf", "            # Payload\n            payload = self.recv_strict(length)\n            if has_mask:\n                payload = ABNF.mask(mask_value, payload)\n\n            # Reset for next frame\n            self.clear()\n",
+                                      "            # Reset for next frame\n            self.clear()\n\n            # Payload\n            payload = self.recv_strict(length)\n            if has_mask:\n                payload = ABNF.mask(mask_value, payload)\n"), ["R-C03-2"])
+M("c03-length-local-only", "C03", [("_abnf", "            self.length = struct.unpack(\"!H\", v)[0]", "            self.length_tmp = struct.unpack(\"!H\", v)[0]"),
+                                   ("_abnf", "            if self.has_received_length():\n                self.recv_length()\n            length = self.length", "            if self.has_received_length():\n                self.recv_length()\n            length = self.length if self.length is not None else self.length_tmp")], ["R-C03-2"])
+M("c03-header-two-reads", "C03", ("_abnf", "        header = self.recv_strict(2)\n        b1 = header[0]", "        header = self.recv_strict(1) + self.recv_strict(1)\n        b1 = header[0]"), ["R-C03-2"])
+M("c03-buffer-reset-at-top", "C03", ("_abnf", "        shortage = bufsize - sum(map(len, self.recv_buffer))\n        while shortage > 0:", "        shortage = bufsize - sum(map(len, self.recv_buffer))\n        held = self.recv_buffer\n        self.recv_buffer = []\n        while shortage > 0:"), ["R-C03-1", "R-C02-5"])
+M("c03-append-late", "C03", ("_abnf", "            bytes_ = self.recv(min(16384, shortage))\n            self.recv_buffer.append(bytes_)\n            shortage -= len(bytes_)", "            bytes_ = self.recv(min(16384, shortage))\n            shortage -= len(bytes_)\n            self.recv_buffer.append(bytes_)"), ["R-C03-1"])
+M("c03-recv-line-4096", "C03", ("_socket", "        c = recv(sock, 1)", "        c = recv(sock, 4096)"), ["R-C03-4"])
+M("c03-read-headers-direct-recv", "C03", ("_http", "        line = recv_line(sock)\n", "        line = sock.recv(4096)\n"), ["R-C03-4"])
+M("c03-timeouterror-not-mapped", "C03", ("_socket", "    except TimeoutError:\n        raise WebSocketTimeoutException(\"Connection timed out\")\n", "    except TimeoutError:\n        raise\n"), ["R-C03-5"])
+M("c03-timeout-as-closed", "C03", ("_socket", "        message = extract_err_message(e)\n        raise WebSocketTimeoutException(message)\n    except SSLError as e:", "        message = extract_err_message(e)\n        raise WebSocketConnectionClosedException(message)\n    except SSLError as e:"), expect="silent")  # socket.timeout is TimeoutError on the analysed Python (>=3.10): the earlier handler takes it, this one is dead
+M("c03-ssl-timeout-not-mapped", "C03", ("_socket", "        if isinstance(message, str) and \"timed out\" in message:\n            raise WebSocketTimeoutException(message)\n        else:\n            raise\n\n    if not bytes_:", "        raise\n\n    if not bytes_:"), ["R-C03-5"])
+M("c03-empty-read-returned", "C03", ("_socket", "    if not bytes_:\n        raise WebSocketConnectionClosedException(\"Connection to remote host was lost.\")\n", "    pass\n"), ["R-C03-5"])
+M("c03-mask-stage-stores-none", "C03", ("_abnf", 'self.mask_value = self.recv_strict(4) if self.has_mask() else ""', 'self.mask_value = self.recv_strict(4) if self.has_mask() else None'), expect="silent")  # unmasked frames then re-run a read-free stage: harmless
+M("c03-header-cleared-on-entry", "C03", ("_abnf", "        with self.lock:\n            # Header\n            if self.has_received_header():", "        with self.lock:\n            self.header = None\n            # Header\n            if self.has_received_header():"), ["R-C03-2"])
+M("c03-spec-stage-test-rewritten", "C03", ("_abnf", "            if self.has_received_length():\n                self.recv_length()", "            if self.length is None:\n                self.recv_length()"), expect="silent")
